@@ -62,6 +62,7 @@ fn thrift_meta_input(r: &mut Rng) -> (Vec<u8>, String) {
                    tag += &format!("skip{ty} "); }
         }
     }
+    if last > 32700 && r.bool() { o.push(0xF5); o.extend(rand_varint(r)); tag += "deltaovf " }   // field delta that overflows i16
     if !r.chance(1, 10) { o.push(0) }
     if r.chance(1, 4) && !o.is_empty() { let p = r.below(o.len()); let (m, t) = m_flip(&o, p, r); o = m; tag += &t; }
     if r.chance(1, 10) && !o.is_empty() { o.truncate(r.below(o.len())); tag += "trunc"; }
@@ -157,4 +158,64 @@ fn gen_probes(tier: &str, r: &mut Rng, emit: &mut dyn FnMut(Case)) {
         let t: String = t.split(' ').filter(|s| !s.is_empty()).map(|s| s.trim_end_matches(|c: char| c.is_ascii_digit())).collect::<Vec<_>>().join("+");
         emit(Case::new(op, a, &[model], format!("{t} {oc}")));
     }
+}
+
+// ---------------------------------------------------------------------------------------------
+// Witness search (C08_WITNESS=1 harness gen c08 quick <seed> <out>): tiny artefacts, single mutations;
+// prints the smallest failing input of every failure class as hex.  Diagnostic only, emits no cases.
+// ---------------------------------------------------------------------------------------------
+fn hex(b: &[u8]) -> String { b.iter().map(|x| format!("{x:02x}")).collect::<Vec<_>>().join(" ") }
+fn witness_search(r: &mut Rng) {
+    use arrow_ipc::writer::{FileWriter, IpcWriteOptions, StreamWriter};
+    let mut inputs: Vec<Input> = Vec::new();
+    let mut add = |kind: i64, aux: Vec<i64>, base: &[u8], label: &str, r: &mut Rng, inputs: &mut Vec<Input>| {
+        for p in 0..base.len() {
+            for v in [0u8, 1, 0x7F, 0x80, 0xFF, base[p] ^ 1, base[p].wrapping_add(1), base[p] ^ 0x80] {
+                if v == base[p] { continue }
+                let mut o = base.to_vec(); o[p] = v;
+                inputs.push(Input { kind, bytes: o, aux: aux.clone(), tag: format!("{label} byte[{p}]: {:02x}->{v:02x}", base[p]) });
+            }
+        }
+        for p in (0..base.len().saturating_sub(3)).step_by(4) { for _ in 0..2 { let (o, t) = m_word(base, p, 4, r); inputs.push(Input { kind, bytes: o, aux: aux.clone(), tag: format!("{label} word[{p}] {t}") }) } }
+        for n in 0..base.len() { inputs.push(Input { kind, bytes: base[..n].to_vec(), aux: aux.clone(), tag: format!("{label} truncated to {n}") }) }
+    };
+    let small = |ids: &[usize], r: &mut Rng| mk_batch(r, ids, 3);
+    for (ids, comp, label) in [(vec![0usize], 0, "int32"), (vec![0], 2, "int32+zstd"), (vec![7], 0, "struct"), (vec![13], 0, "utf8view"), (vec![0, 1], 0, "int32,utf8")] {
+        let b = small(&ids, r);
+        let mut opts = IpcWriteOptions::default();
+        if comp == 2 { opts = opts.try_with_compression(Some(arrow_ipc::CompressionType::ZSTD)).unwrap() }
+        let mut w = StreamWriter::try_new_with_options(Vec::new(), &b.schema(), opts.clone()).unwrap(); w.write(&b).unwrap(); w.finish().unwrap();
+        let s = w.into_inner().unwrap();
+        add(K_IPC_STREAM, vec![0], &s, &format!("ipc stream {label}"), r, &mut inputs);
+        let mut w = FileWriter::try_new_with_options(Vec::new(), &b.schema(), opts).unwrap(); w.write(&b).unwrap(); w.finish().unwrap();
+        let f = w.into_inner().unwrap();
+        add(K_IPC_FILE, vec![(ids.len() > 1) as i64], &f, &format!("ipc file {label}"), r, &mut inputs);
+    }
+    for ids in [vec![0usize], vec![1]] {
+        let b = small(&ids, r);
+        let mut w = parquet::arrow::ArrowWriter::try_new(Vec::new(), b.schema(), None).unwrap(); w.write(&b).unwrap();
+        let f = w.into_inner().unwrap();
+        if let Some((fs, fl)) = pq_footer(&f) {
+            let mut slots = Vec::new(); let mut p = fs; let _ = t_struct(&f, &mut p, 0, &mut slots);
+            let mut ms = Vec::new(); slot_mutants(r, &f, &slots, 400, Some((fs, fl)), &mut ms);
+            for (o, t) in ms { inputs.push(Input { kind: K_PQ_ARROW, bytes: o, aux: vec![0], tag: format!("parquet {ids:?} {t}") }) }
+            let pages = pq_page_headers(&f); let hs: Vec<TSlot> = pages.iter().flat_map(|(_, s)| s.clone()).collect();
+            let mut ms = Vec::new(); slot_mutants(r, &f, &hs, 200, None, &mut ms);
+            for (o, t) in ms { inputs.push(Input { kind: K_PQ_ARROW, bytes: o, aux: vec![0], tag: format!("parquet {ids:?} page {t}") }) }
+        }
+    }
+    { let mut h = avro_probe_header(); let zz = |v: i64| uleb(((v << 1) ^ (v >> 63)) as u64);
+      let mut blk = Vec::new(); blk.extend(zz(2)); blk.extend(zz(2)); blk.extend([2u8, 4]); blk.extend(AVRO_SYNC); h.extend(&blk);
+      let hl = h.len() - blk.len();
+      for p in hl..h.len() { for v in [0u8, 1, 2, 4, 6, 0x7F, 0x80, 0xFF] { if v != h[p] { let mut o = h.clone(); o[p] = v; inputs.push(Input { kind: K_AVRO, bytes: o, aux: vec![0], tag: format!("avro long-file block byte[{}]: {:02x}->{v:02x}", p - hl, h[p]) }) } } } }
+    let jobs: Vec<(String, Args)> = inputs.iter().map(|i| ("c08.outcome".to_string(), in_args(i))).collect();
+    let outs = run_batch(jobs);
+    let mut best: std::collections::BTreeMap<String, usize> = Default::default();
+    for (k, o) in outs.iter().enumerate() {
+        let code = out_code(o); if code < PANIC { continue }
+        let cls = format!("{} {} {}", code_name(code), KIND_NAMES[inputs[k].kind as usize], out_loc(o));
+        let e = best.entry(cls).or_insert(k);
+        if inputs[k].bytes.len() < inputs[*e].bytes.len() { *e = k }
+    }
+    for (cls, k) in best { eprintln!("WITNESS {cls}\n  mutation: {}\n  len {}: {}", inputs[k].tag, inputs[k].bytes.len(), hex(&inputs[k].bytes)); }
 }
